@@ -68,7 +68,8 @@ def _site_logpdf(site, v, vals, arg, kinks=None):
     if d == "exponential":
         return float(sps.expon.logpdf(v, scale=1.0 / sc))
     if d == "flip":
-        p = float(expit(loc))
+        # probability sigmoid(3 tanh(loc/3)) stays in [0.047, 0.953]: float32 log(1-p) keeps its precision
+        p = float(expit(3.0 * math.tanh(loc / 3.0)))
         return math.log(p) if v else math.log1p(-p)
     raise ValueError(d)
 
@@ -182,7 +183,7 @@ def build_static(case):
             elif d == "exponential":
                 v = genjax.exponential(sc) @ addr(i)
             elif d == "flip":
-                v = genjax.flip(jax.nn.sigmoid(loc)) @ addr(i)
+                v = genjax.flip(jax.nn.sigmoid(3.0 * jnp.tanh(loc / 3.0))) @ addr(i)
             else:
                 raise ValueError(d)
             vals.append(v)
@@ -284,26 +285,34 @@ def _q(lo, hi, step=0.05):
 
 
 def _coef(lo=-1.5, hi=1.5):
-    return st.one_of(st.just(0.0), _q(lo, hi).filter(lambda c: abs(c) >= 0.1))
+    nz = _q(lo, hi).filter(lambda c: abs(c) >= 0.1)
+    return st.one_of(nz, nz, st.just(0.0))
+
+
+def _rot(lst, r):
+    """the list rotated by r: Hypothesis' first example takes the first element of every sampled_from,
+    so rotating by the shard number makes the 16 shards start from 16 different structures"""
+    r %= len(lst)
+    return lst[r:] + lst[:r]
 
 
 @st.composite
-def static_case(draw, allow_discrete_selected):
-    family = draw(st.sampled_from(["smooth", "smooth", "pl"]))  # pl = piecewise-linear log density
-    n = draw(st.integers(1, 4))
+def static_case(draw, allow_discrete_selected, r=0):
+    family = draw(st.sampled_from(_rot(["smooth", "pl", "smooth"], r)))  # pl = piecewise-linear log density
+    n = draw(st.sampled_from(_rot([3, 2, 4, 1, 3, 4, 2], r)))
     sites = []
     for i in range(n):
         if family == "pl":
-            d = draw(st.sampled_from(["laplace", "laplace", "laplace", "flip", "categorical"]))
+            d = draw(st.sampled_from(_rot(["laplace", "laplace", "flip", "laplace", "categorical"], r + i)))
         else:
-            d = draw(st.sampled_from(["normal", "normal", "normal", "laplace", "cauchy", "exponential", "flip", "categorical"]))
+            d = draw(st.sampled_from(_rot(["normal", "laplace", "normal", "flip", "cauchy", "normal", "exponential", "categorical"], r + 3 * i)))
         if i == 0 and d in ("flip", "categorical", "exponential") and n == 1:
             d = "laplace" if family == "pl" else "normal"
         s = {"dist": d}
         if d == "categorical":
             s["logits"] = [draw(_q(-1.0, 1.0, 0.25)) for _ in range(3)]
         else:
-            sdeps = [0.0] * i if family == "pl" else [draw(st.one_of(st.just(0.0), _q(0.05, 0.5))) for _ in range(i)]
+            sdeps = [0.0] * i if family == "pl" else [draw(st.one_of(_q(0.05, 0.5), st.just(0.0))) for _ in range(i)]
             s["loc"] = {"c": draw(_q(-1.5, 1.5)), "arg": draw(_coef()), "deps": [draw(_coef()) for _ in range(i)]}
             s["scale"] = {"s0": draw(_q(0.4, 2.0)), "deps": sdeps}
         sites.append(s)
@@ -316,7 +325,7 @@ def static_case(draw, allow_discrete_selected):
         }
         cont = [0]
     disc = [i for i, s in enumerate(sites) if s["dist"] in ("flip", "categorical")]
-    select = sorted(draw(st.lists(st.sampled_from(cont), min_size=1, max_size=len(cont), unique=True)))
+    select = sorted(draw(st.lists(st.sampled_from(_rot(cont, r)), min_size=1, max_size=len(cont), unique=True)))
     want_disc = bool(disc) and draw(st.integers(0, 5)) == 0
     if want_disc and allow_discrete_selected:
         select = sorted(select + [draw(st.sampled_from(disc))])
@@ -329,21 +338,21 @@ def static_case(draw, allow_discrete_selected):
         "kind": "static",
         "family": family,
         "sites": sites,
-        "ret": draw(st.integers(0, n - 1)),
+        "ret": draw(st.sampled_from(_rot(list(range(n)), r))),
         "select": select,
-        "sel_form": draw(st.sampled_from(forms)),
+        "sel_form": draw(st.sampled_from(_rot(forms, r))),
         "discrete_selection_wanted": want_disc,
-        "safe": draw(st.integers(0, 3)) == 0,
+        "safe": draw(st.integers(0, 2)) == 0,
     }
 
 
 @st.composite
-def scan_case(draw):
+def scan_case(draw, r=0):
     return {
         "kind": "scan",
         "family": "smooth",
         "scan": {
-            "n": draw(st.integers(2, 3)),
+            "n": draw(st.sampled_from(_rot([2, 3], r))),
             "a": draw(_q(-1.0, 1.0)),
             "b": draw(_q(-1.0, 1.0)),
             "c": draw(_q(0.5, 1.5)),
@@ -360,16 +369,17 @@ EPS_GRID = [0.01, 0.02, 0.03, 0.05, 0.08, 0.1, 0.12, 0.15, 0.2, 0.25]
 
 
 @st.composite
-def case_strategy(draw, allow_discrete_selected, max_runs):
-    case = draw(st.one_of(static_case(allow_discrete_selected), static_case(allow_discrete_selected), static_case(allow_discrete_selected), scan_case()))
-    case["L"] = draw(st.sampled_from([1, 2, 2, 3, 3, 4, 5, 6]))
+def case_strategy(draw, allow_discrete_selected, max_runs, r=0, key_salt=0):
+    kind = draw(st.sampled_from(_rot(["static", "static", "scan", "static", "static"], r)))
+    case = draw(scan_case(r) if kind == "scan" else static_case(allow_discrete_selected, r))
+    case["L"] = draw(st.sampled_from(_rot([3, 2, 1, 4, 2, 6, 3, 5], r)))
     # the (L-1)-step run gives the end momentum of the produced trajectory (one more compiled program)
     case["with_prev"] = True if case["L"] <= 2 else draw(st.booleans())
     case["runs"] = [
         {
-            "k_sim": draw(st.integers(0, 2**31 - 1)),
-            "k_hmc": draw(st.integers(0, 2**31 - 1)),
-            "eps": draw(st.sampled_from(EPS_GRID)),
+            "k_sim": draw(st.integers(0, 2**31 - 1)) ^ key_salt,
+            "k_hmc": draw(st.integers(0, 2**31 - 1)) ^ (key_salt >> 1),
+            "eps": draw(st.sampled_from(_rot(EPS_GRID, 5 + 3 * r))),
             "arg": draw(_q(-2.0, 2.0)),
         }
         for _ in range(draw(st.integers(1, max_runs)))
@@ -405,9 +415,6 @@ def _extreme(case, base, arg):
         return not all(math.isfinite(v) and abs(v) < 100 for v in base[0] + base[1])
     if not all(math.isfinite(v) and abs(v) < 100 for v in base):
         return True
-    for i, s in enumerate(case["sites"]):
-        if s["dist"] == "flip" and abs(_site_params(s, base[:i], arg)[0]) > 8:
-            return True
     return False
 
 
@@ -705,7 +712,7 @@ def _selftest():
     back, pb, _ = leapfrog(r, xs[-1], [-p[0]], 0.1, 7)
     assert abs(back[-1][0] - 1.0) < 1e-7 and abs(pb[0] + 0.5) < 1e-7
     fl = {"dist": "flip", "loc": {"c": 0.2, "arg": 0.0, "deps": []}, "scale": {"s0": 1.0, "deps": []}}
-    assert abs(_site_logpdf(fl, 1.0, [], 0.0) - math.log(1 / (1 + math.exp(-0.2)))) < 1e-12
+    assert abs(_site_logpdf(fl, 1.0, [], 0.0) - math.log(1 / (1 + math.exp(-3.0 * math.tanh(0.2 / 3.0))))) < 1e-12
     cat = {"dist": "categorical", "logits": [0.0, 1.0, -1.0]}
     assert abs(_site_logpdf(cat, 1, [], 0.0) - (1.0 - math.log(1 + math.e + math.exp(-1)))) < 1e-12
 
@@ -744,7 +751,8 @@ def run(ctx):
             ctx.exclude(K_DISCRETE)
         check_case(case, ctx)
 
-    ctx.run_hypothesis(case_strategy(allow_disc, ctx.pick(3, 4)), chk, ctx.pick(4, 20), salt="main")
+    strat = case_strategy(allow_disc, ctx.pick(3, 4), r=ctx.shard + 5 * ctx.seed, key_salt=ctx.shard_seed("keys"))
+    ctx.run_hypothesis(strat, chk, ctx.pick(4, 20), salt="main")
 
 
 def replay(ctx, case):
